@@ -7,3 +7,4 @@ import KalignModel.Props.C17
 #print axioms Kalign.score_100_of_same_mod_allgap
 #print axioms Kalign.row_order_invariant
 #print axioms Kalign.scoreF32_row_order_invariant
+#print axioms Kalign.late_names_ok
